@@ -81,7 +81,7 @@ Det == Top.det
 Pick(n) == IF Det THEN {(K % n) + 1} ELSE 1..n
 PickLen(S) == IF Det THEN {CHOOSE x \in S : Cardinality({y \in S : y < x}) = K % Cardinality(S)} ELSE S
 Push(st, f) == Append(st, [f EXCEPT !.det = (st[Len(st)].det \/ f.det)])
-Info(tid, en, bits, n) == [tid |-> tid, en |-> en, bits |-> bits, n |-> n]
+Info(tid, en, bits, n) == [tid |-> tid, en |-> en, bits |-> bits, n |-> n, free |-> {}]
 Remember(i, info) ==
     IF i.cnt \/ i.ctl
     THEN [scopes EXCEPT ![Len(scopes)] = (i.name :> info) @@ @]
@@ -168,6 +168,124 @@ FirstArm(i, sc) ==
     IN IF hs = {} THEN 0 ELSE CHOOSE j \in hs : \A x \in hs : j <= x
 
 ---------------------------------------------------------------------------
+(***************************************************************************)
+(* Interval abstraction of the same walk (used by C09 and by the fixed-size *)
+(* fault family of C04): the exact extremes of the length of a container    *)
+(* over its whole conditional structure.  A choice is enumerated only where *)
+(* it changes the structure (controlling enumerators, all subsets of the    *)
+(* tested flag bits); everything else contributes its documented interval.  *)
+(* INF stands for "unbounded" (a CString has no length limit in the         *)
+(* language; an endless array is bounded only by the frame).                *)
+(***************************************************************************)
+INF == 100000000
+Plus(a, b) == IF a >= INF \/ b >= INF THEN INF ELSE (IF a + b >= INF THEN INF ELSE a + b)
+Times(n, a) == IF a >= INF \/ n >= INF THEN (IF n = 0 \/ a = 0 THEN 0 ELSE INF)
+               ELSE (IF n > 0 /\ a > (INF \div n) THEN INF ELSE n * a)
+IV(lo, hi) == [lo |-> lo, hi |-> hi]
+IVAdd(x, y) == IV(Plus(x.lo, y.lo), Plus(x.hi, y.hi))
+Min2(a, b) == IF a <= b THEN a ELSE b
+Max2(a, b) == IF a >= b THEN a ELSE b
+IVJoin(x, y) == IV(Min2(x.lo, y.lo), Max2(x.hi, y.hi))
+RECURSIVE IVJoinAll(_)
+IVJoinAll(S) == LET x == CHOOSE y \in S : TRUE IN IF S = {x} THEN x ELSE IVJoin(x, IVJoinAll(S \ {x}))
+
+(* largest count a count field of width w (or valid_range) can announce *)
+MaxCountOfWidth(w) == CASE w = 1 -> 255 [] w = 2 -> 65535 [] OTHER -> INF
+
+RECURSIVE SizeOfType(_, _, _), SizeFrom(_, _, _, _), SizeOfBlockFresh(_, _)
+
+(* interval of one value of builtin type ty *)
+BuiltinIV(i, ty, c) ==
+    CASE ty \in {"u8", "i8", "Bool", "Level"} -> IV(1, 1)
+      [] ty \in {"u16", "i16", "Spell16", "Level16"} -> IV(2, 2)
+      [] ty \in {"u32", "i32", "Gold", "Seconds", "Milliseconds", "Spell", "Item", "f32", "Population",
+                 "Bool32", "Level32", "DateTime", "IpAddress"} -> IV(4, 4)
+      [] ty \in {"u64", "i64", "Guid"} -> IV(8, 8)
+      [] ty = "u48" -> IV(6, 6)
+      [] ty = "PackedGuid" -> IV(1, 9)
+      [] ty = "CString" -> IV(1, IF i.maxlen > 0 THEN i.maxlen + 1 ELSE INF)
+      [] ty = "SizedCString" -> IV(5, IF i.maxlen > 0 THEN i.maxlen + 5 ELSE INF)
+      [] ty = "String" -> IV(1, 256)
+      [] ty = "NamedGuid" -> IV(8, INF)
+      [] ty = "VariableItemRandomProperty" -> IV(4, 8)
+      [] ty = "MonsterMoveSplines" -> IV(4, INF)
+      [] ty = "AuraMask" -> IF c.exp = "vanilla" THEN IV(4, 4 + 32 * 2)
+                             ELSE IV(8, Plus(8, Times(64, SizeOfType("Aura", c, 0).hi)))
+      [] ty = "EnchantMask" -> IV(2, 2 + 16 * 2)
+      [] ty = "CacheMask" -> IV(4, 4 + 32 * 4)
+      [] ty = "InspectTalentGearMask" -> IV(4, Plus(4, Times(32, SizeOfType("InspectTalentGear", c, 0).hi)))
+      [] ty = "UpdateMask" -> IV(1, INF)
+      [] ty \in {"AchievementDoneArray", "AchievementInProgressArray"} -> IV(4, INF)
+      [] ty = "AddonArray" -> IV(0, INF)
+
+(* interval of one value of a (builtin or user) type name; upw = upcast width or 0 *)
+SizeOfType(ty, c, upw) ==
+    IF Resolvable(ty, c)
+    THEN LET o == Objs[Resolve(ty, c)] IN
+         IF o.kind \in {"enum", "flag"} THEN (IF upw > 0 THEN IV(upw, upw) ELSE IV(o.w, o.w))
+         ELSE SizeOfBlockFresh(o.blk, c)
+    ELSE BuiltinIV([maxlen |-> 0], ty, c)
+
+SubsetsOf(S) == SUBSET S
+
+(* Structural recursion: the interval of block b from instruction pc on, under env (function    *)
+(* field name -> Info for the controlling / count fields of the enclosing container).  A field   *)
+(* declared inside a conditional block is visible only inside that block, so its choices are    *)
+(* enumerated over the remainder of that block only.                                            *)
+SizeFrom(b, pc, env, c) ==
+    LET ins == Blks[b].ins IN
+    IF pc > Len(ins) THEN IV(0, 0)
+    ELSE LET i == ins[pc]
+             rest(e) == SizeFrom(b, pc + 1, e, c)
+         IN CASE i.op = "decl" ->
+                 IF i.arr # "none"
+                 THEN LET el == IF i.builtin THEN BuiltinIV(i, i.ty, c) ELSE SizeOfType(i.ty, c, 0)
+                          arr == CASE i.arr = "fixed" -> IV(Times(i.n, el.lo), Times(i.n, el.hi))
+                                   [] i.arr = "var" -> IV(0, Times(env[i.cf].n, el.hi))
+                                   [] i.arr = "endless" -> IV(0, INF)
+                      IN IVAdd(IF i.comp THEN IV(4, INF) ELSE arr, rest(env))
+                 ELSE IF i.builtin
+                 THEN LET w == IntWidth(i.ty)
+                          e2 == IF i.cnt
+                                THEN (i.name :> Info(0, "", {}, IF i.hv THEN i.vhi ELSE MaxCountOfWidth(w))) @@ env
+                                ELSE env
+                      IN IVAdd(BuiltinIV(i, i.ty, c), rest(e2))
+                 ELSE IF ~Resolvable(i.ty, c) THEN IV(0, INF)
+                 ELSE LET tid == Resolve(i.ty, c)
+                          o == Objs[tid]
+                      IN IF o.kind = "struct" THEN IVAdd(SizeOfBlockFresh(o.blk, c), rest(env))
+                         ELSE LET w == IF i.upw > 0 THEN i.upw ELSE o.w IN
+                              IF ~i.ctl THEN IVAdd(IV(w, w), rest(env))
+                              ELSE IF o.kind = "enum"
+                              THEN IVAdd(IV(w, w),
+                                         IVJoinAll({rest((i.name :> Info(tid, nm, {}, 0)) @@ env) : nm \in ENames(o)}))
+                              ELSE IVAdd(IV(w, w),
+                                         LET free == {i.free[j] : j \in 1..Len(i.free)} \cap ENames(o) IN
+                                         IVJoinAll({rest((i.name :> [Info(tid, "", FlagBits(o, S), 0) EXCEPT !.free = free]) @@ env) :
+                                                    S \in SubsetsOf((Tested(i) \cap ENames(o)) \ free)}))
+              [] i.op = "if" ->
+                 LET a == FirstArm(i, env)
+                     indep == /\ Len(i.arms) = 1 /\ i.els = 0 /\ Len(i.arms[1].conds) = 1
+                              /\ i.arms[1].conds[1].cmp = "&"
+                              /\ i.arms[1].conds[1].val \in env[i.arms[1].conds[1].var].free
+                 IN
+                 (* a flag bit tested only by plain independent ifs: taken or not, independently *)
+                 IF indep THEN IVAdd(IVJoin(IV(0, 0), SizeFrom(i.arms[1].blk, 1, env, c)), rest(env))
+                 ELSE IF a > 0 THEN IVAdd(SizeFrom(i.arms[a].blk, 1, env, c), rest(env))
+                 ELSE IF i.els > 0 THEN IVAdd(SizeFrom(i.els, 1, env, c), rest(env))
+                 ELSE rest(env)
+              [] i.op = "opt" ->
+                 IVAdd(IVJoin(IV(0, 0), SizeFrom(i.blk, 1, env, c)), rest(env))
+              [] i.op = "unimpl" -> IV(0, INF)
+
+SizeOfBlockFresh(b, c) == SizeFrom(b, 1, <<>>, c)
+
+(* extremes of the body of a container object in context c (message-level compression adds the *)
+(* u32 decompressed size and makes the rest unpredictable)                                      *)
+ContainerIV(o, c) ==
+    IF o.comp THEN IV(4, INF) ELSE SizeOfBlockFresh(o.blk, c)
+
+---------------------------------------------------------------------------
 Init ==
     \E r \in Roots, p \in 0..(NProf - 1) :
         /\ root = r /\ prof = p
@@ -183,9 +301,23 @@ AtDecl == AtIns /\ Ins.op = "decl"
 UserKind(i) == IF Resolvable(i.ty, root.ctx) THEN Objs[Resolve(i.ty, root.ctx)].kind ELSE "none"
 
 EvName == IF Top.k = "blk" THEN Ins.name ELSE "[" \o Top.ety \o "]"
+EvElemKind == IF Resolvable(Top.ety, root.ctx) THEN Objs[Resolve(Top.ety, root.ctx)].kind ELSE "none"
+(* what kind of field an event is (used by the fault families of C03 / C04) *)
+EvKind ==
+    IF Top.k = "arr" THEN EvElemKind
+    ELSE IF Ins.selfsize THEN "size"
+    ELSE IF Ins.hasc THEN "const"
+    ELSE IF Ins.arr # "none" THEN "array"
+    ELSE IF Ins.cnt THEN "count"
+    ELSE IF Ins.builtin THEN Ins.ty
+    ELSE UserKind(Ins)
+EvTid ==
+    IF Top.k = "arr" THEN (IF EvElemKind \in {"enum", "flag"} THEN Resolve(Top.ety, root.ctx) ELSE 0)
+    ELSE IF Ins.op = "decl" /\ ~Ins.builtin /\ Ins.arr = "none" /\ UserKind(Ins) \in {"enum", "flag"}
+         THEN Resolve(Ins.ty, root.ctx) ELSE 0
 Emit(bytes, st, sc) ==
     /\ out' = out \o bytes /\ stack' = st /\ scopes' = sc /\ fi' = fi + 1
-    /\ ev' = Append(ev, [n |-> EvName, at |-> Len(out), len |-> Len(bytes)])
+    /\ ev' = Append(ev, [n |-> EvName, at |-> Len(out), len |-> Len(bytes), k |-> EvKind, tid |-> EvTid])
     /\ UNCHANGED <<root, prof, regions, sizepos, sizew, phase, note>>
 
 Abort(why) ==
